@@ -179,6 +179,8 @@ def gen_truc(rng, out):
     ev = {"c"}
     for fee in rng.sample(fee_choices(rng, h, ev, cvs), 4):
         cand = dict(name="new", ver=3, fee=fee, nout=nout, pad=0, ins=ins)
+        if any(t["ins"] == ins and t["nout"] == nout and t["fee"] == fee and t["ver"] == 3 for t in h.txs):
+            continue
         out.append(" ; ".join(h.ops() + [h.line(cand, "rbf")]))
     # a non-TRUC second child (no sibling eviction: TRUC violation)
     cand = dict(name="new", ver=2, fee=5000, nout=1, pad=0, ins=[("p", 1)])
